@@ -142,7 +142,8 @@ class Prop(BaseProp):
             scfg = os.path.join(sb, "cfg", "extra.yaml")
             fsrun.write_yaml(scfg, {"rst": {"file_extensions_in_titles": True}})
             pool = [[], ["-p", "Pfx"], ["-e", "e*.cmake"], ["-s", scfg], ["-p", "My Prefix"], ["-e", "a*", "-e", "b.cmake"],
-                    ["-p", "P", "-s", scfg, "-e", "top.cmake"], ["-p", "x(y)"], ["-p", "$dollar"], ["-e", "*.md", "-p", "a b c"]]
+                    ["-p", "P", "-s", scfg, "-e", "top.cmake"], ["-p", "x(y)"], ["-p", "$dollar"], ["-e", "*.md", "-p", "a b c"],
+                    ["-e", "sub/"], ["-e", "a*/", "-p", "x/"], ["-p", "back\\slash"], ["-e", "e*/", "-e", "zz/"], ["-p", "trailing "]]
             extra = pool[(idx // 9 + rng.randrange(3)) % len(pool)]
             run_cwd = os.path.join(sb, "started_here")       # cmake (and the direct command line) run from here,
             os.makedirs(run_cwd)                              # the driver script lives one level up
@@ -169,8 +170,17 @@ class Prop(BaseProp):
             if kind in ("file", "flat", "nested") and rng.random() < 0.3:
                 extra0 = rng.choice([e for e in pool if e != extra])
                 res.count("second_call_same_input_and_output")
+            # ... or with the SAME arguments, but the settings file named by -s was edited between the two calls
+            cfg_first = "rst:\n  file_extensions_in_titles: true\n"
+            cfg_second = "rst:\n  file_extensions_in_titles: false\n  prefix: SecondRun\ninput:\n  exclude_filters: ['top.cmake']\n"
+            same_args = extra0 is not None and "-s" in extra and rng.random() < 0.6
+            if same_args:
+                extra0 = extra
+                res.count("second_call_same_arguments_settings_file_edited")
             first_call = "" if extra0 is None else \
                 f'cminx_gen_rst({q(target)} {q(out1 if not rel_out else "rel_out_cmake")} {" ".join(q(e) for e in extra0)})\n'
+            if same_args:
+                first_call += f'file(WRITE {q(scfg)} {q(cfg_second)})\n'
             with open(drv, "w") as f:
                 f.write(f'set(CMINX_EXECUTABLE {q(shim)})\ninclude({q(os.path.join(repo_root(), "cmake", "cminx.cmake"))})\n'
                         + first_call +
@@ -202,7 +212,13 @@ class Prop(BaseProp):
             if extra0 is not None:
                 want0 = [target] + (["-r"] if os.path.isdir(target) else []) + extra0 + ["-o", out1_arg]
                 want_all = [want0, want]
+                if same_args:
+                    with open(scfg, "w") as f_:
+                        f_.write(cfg_first)
                 runner.run_cli(want0[:-1] + [out2_arg], cwd=run_cwd, home=home)        # the same history on the command line
+                if same_args:
+                    with open(scfg, "w") as f_:
+                        f_.write(cfg_second)
             res.count("argv_records_checked")
             if recs != want_all:
                 cls = "argv"
